@@ -150,6 +150,9 @@ def dense_ops():
             ops.append(("add_edges_elist", t, h, ["a", "b"]))
     for v in V3:
         ops.append(("delete_vertex", v))
+    for t in V3:
+        for h in V3:
+            ops.append(("query", t, h))
     ops.append(("recurrent_inplace",))
     ops.append(("recurrent_copy",))
     ops.append(("rename", {"a": "b", "b": "a"}, True))
@@ -284,8 +287,24 @@ def apply_op(op, F, M):
     elif kind == "deepcopy":
         F = copy.deepcopy(F)
         M = M.copy()
-    else:
-        raise ValueError(kind)
+    elif kind == "query":
+        # read-only adjacency queries between two existing vertices, adjacent or
+        # not: they must not change any view (seeded change C09-r2-2: has_edge /
+        # edge_labels auto-creating an empty outgoing entry, after which
+        # add_edges / delete_vertex raise and recurrent() keeps dead ends)
+        _, t, h = op
+        if t not in M.vertices or h not in M.vertices:
+            return F, M, "query on a missing vertex"
+        want = sorted(l for (u, l), w in M.delta.items() if u == t and w == h)
+        got_has = F.has_edge(t, h)
+        got_labels = sorted(F.edge_labels(t, h))
+        list(F.edges_out(t))
+        list(F.edges_in(h))
+        list(F.neighbors_out(t))
+        list(F.neighbors_in(h))
+        if got_has != bool(want) or got_labels != want:
+            return F, M, "VIOLATION:has_edge=%r edge_labels=%r, the model has %r" % (
+                got_has, got_labels, want)
     return F, M, "ok"
 
 
@@ -332,6 +351,10 @@ def run_history(run, route_name, F, M, ops, F2=None, M2=None, ops2=()):
         if len(M.delta) > 0:
             nontrivial = True
         F, M, status = apply_op(op, F, M)
+        if status.startswith("VIOLATION:"):
+            run.monitor("history-model").fail("model/adjacency-query/wrong-answer", status[10:],
+                                              {"history": hist, "step": k})
+            return
         if status != "ok":
             run.monitor("history-model").skip(status)
             continue
@@ -407,7 +430,9 @@ def random_ops(rng, labels, depth, nv=7):
             ops.append(("recurrent_inplace",))
         elif r < 0.85:
             ops.append(("recurrent_copy",))
-        elif r < 0.92:
+        elif r < 0.88:
+            ops.append(("query", t, h))
+        elif r < 0.94:
             perm = list(rng.permutation(len(labels)))
             mp = {labels[i]: labels[perm[i]] for i in range(len(labels))}
             ops.append(("rename", mp, bool(rng.random() < 0.5)))
@@ -482,6 +507,9 @@ def wl_shared_source(run, rng, idx):
     run.current_case = _state["history"]
     for k, op in enumerate(ops):
         A, MA, status = apply_op(op, A, MA)
+        if status.startswith("VIOLATION:"):
+            mon.fail("model/adjacency-query/wrong-answer", status[10:], _state["history"])
+            return
         if status != "ok":
             mon.skip(status)
             continue
